@@ -122,6 +122,9 @@ func post(c *ev.Check, outs []*run.Outcome) {
 		c.Require("achieved."+k, 1)
 	}
 	c.Require("sigcut.recovered", 1)
+	if n := c.Counter("victim.abandoned_rotation_wait"); n > 3 {
+		c.Inconc(fmt.Sprintf("%d cases were abandoned because the victim's rotation job did not come round", n))
+	}
 	if c.Counter("prodwt.no_network_namespace") == 0 {
 		c.Require("prodwt.crash.recovered", 1)
 	}
@@ -1130,6 +1133,13 @@ func (d *driver) runCase(cs caseSpec) (co caseOut) {
 		// the victim ended on its own: no crash was delivered, nothing to judge here
 		line := run.CrashLine(headOf(filepath.Join(caseDir, "victim.stderr"), 20000))
 		r.Count("victim.ended_on_its_own", 1)
+		if line == "" && strings.Contains(lg.Fail, "rotation did not run although it was due") {
+			// the victim's own driver gave up waiting for the gated rotation job (a traced process on a
+			// loaded machine): the case is abandoned; more than three of them make the run inconclusive (post)
+			r.Count("victim.abandoned_rotation_wait", 1)
+			r.Note("case abandoned: %s; last ops %v", lg.Fail, lastN(lg.Lines, 3))
+			return
+		}
 		r.Inconc(fmt.Sprintf("victim ended on its own (exit %d, %s %s) before a crash could be delivered; last ops %v", cmd.ProcessState.ExitCode(), lg.Fail, line, lastN(lg.Lines, 3)))
 		return
 	}
